@@ -1,11 +1,14 @@
 // tsrun group binary: `tsrun factgen ...` and `tsrun corr ...` (properties C01, C16).
-// Invoked through a link named `vh` it is the helper program the generated scripts `exec` (helper.go).
+// Invoked through a link named `vh` it is the helper program the generated scripts `exec` (helper.go);
+// invoked as `vmain` (the copy testscript.Main installs) it is the same helper as a Main command.
 package main
 
 import (
 	"fmt"
 	"os"
 	"path/filepath"
+
+	"github.com/rogpeppe/go-internal/testscript"
 
 	"verif/harness/internal/corr"
 	"verif/harness/internal/fact"
@@ -16,6 +19,9 @@ func main() {
 		helperMain(os.Args[1:])
 		return
 	}
+	if filepath.Base(os.Args[0]) == mainCmdName { // the copy of this binary that testscript.Main put on PATH
+		testscript.Main(nil, mainCommands()) // runs the command and exits
+	}
 	if len(os.Args) < 2 {
 		fmt.Fprintln(os.Stderr, "usage: tsrun factgen|corr [flags]")
 		os.Exit(2)
@@ -24,7 +30,11 @@ func main() {
 	case "factgen":
 		fact.Main(os.Args[2:], "tsrun", "TsRun", genTsRun)
 	case "corr":
-		corr.Main(os.Args[2:], runTsRun)
+		// through testscript.Main, as a TestMain would: it installs a copy of this binary named `vmain` on
+		// PATH and registers `vmain` as a script command ("vmain args" = "exec vmain args", unless
+		// Params.RequireExplicitExec) — the commands of exe.go, which are part of C01 (lanes.go).
+		// Main runs the function below and exits with its result.
+		testscript.Main(mFunc(func() int { corr.Main(os.Args[2:], runTsRun); return 0 }), mainCommands())
 	default:
 		fmt.Fprintln(os.Stderr, "usage: tsrun factgen|corr [flags]")
 		os.Exit(2)
